@@ -17,6 +17,7 @@ import (
 	"github.com/Sifchain/sifnode/x/clp"
 	clptypes "github.com/Sifchain/sifnode/x/clp/types"
 	sdk "github.com/cosmos/cosmos-sdk/types"
+	minttypes "github.com/cosmos/cosmos-sdk/x/mint/types"
 )
 
 func decEnc(s string) string {
@@ -99,6 +100,9 @@ func (p seqPlan) shape() string {
 	if p.brBetween != "" {
 		s += ".block-rate"
 	}
+	if p.bGov == "" {
+		s += ".kept-rate" // the next policy omits the optional governance rate and inherits the stored one
+	}
 	return s + ".next-policy"
 }
 
@@ -129,12 +133,25 @@ func randomSeqPlan(r *Rng) seqPlan {
 	nEpB := int64(8 + r.Intn(13))
 	p.bEn = p.bSt + p.bEl*nEpB - 1
 	p.bGov = []string{"0.01", "0.001", "1", "0.3", "0"}[r.Intn(5)]
+	if r.Chance(2, 5) {
+		// optional field omitted: the next policy inherits the governance rate stored by the first one;
+		// short epochs, many of them, so that the inherited rate is compounded often enough to matter
+		p.bGov = ""
+		p.aGov = []string{"1.0", "0.5", "0.35", "0.02", "0.04", "0.2"}[r.Intn(6)]
+		p.bEl = int64(1 + r.Intn(2))
+		nEpB = int64(280 + r.Intn(700))
+		p.bEn = p.bSt + p.bEl*nEpB - 1
+	}
 	return p
 }
 
-// the lead's seeded-change demonstration, literally
+// the seeded-change demonstrations, literally: C10-2 (end_policy, then the next policy) and C10-3 (a
+// policy at 1.0 over 10 epochs run to its end, then a policy that keeps the stored rate over 300 epochs)
 func directedSeqPlan() seqPlan {
 	return seqPlan{aGov: "0.50", aEl: 1, aSt: 11, aEn: 20, endAt: 12, bGov: "0.01", bEl: 100, bSt: 21, bEn: 1020, submitA: 4, submitB: 14}
+}
+func directedKeptRatePlan() seqPlan {
+	return seqPlan{aGov: "1.0", aEl: 1, aSt: 10, aEn: 19, endAt: 0, bGov: "", bEl: 1, bSt: 30, bEn: 329, submitA: 4, submitB: 21}
 }
 
 func runSequence(r *Rng, out *Out, p seqPlan, baseline bool) {
@@ -149,7 +166,12 @@ func runSequence(r *Rng, out *Out, p seqPlan, baseline bool) {
 	}
 	t := &tracked{m: &AdminMsg{kind: "Sequence", shape: p.shape(), desc: fmt.Sprintf("A=[%d,%d]/%d@%s end=%d br=%s rr=%s B=[%d,%d]/%d@%s", p.aSt, p.aEn, p.aEl, p.aGov, p.endAt, p.brBetween, p.rrBetween, p.bSt, p.bEn, p.bEl, p.bGov)}, accepted: true}
 	between := false
-	for h := int64(2); h <= p.bEn+2; h++ {
+	last := p.bEn + 2
+	mint1, mint2 := int64(0), int64(0)
+	if baseline && r.Chance(1, 3) { // zero-means-keep of UpdateStakingRewardParams: set a minter, later keep it
+		mint1, mint2 = 3, p.submitB+1
+	}
+	for h := int64(2); h <= last; h++ {
 		w.SetHeight(h)
 		full := h <= p.submitB+1 || h%97 == 0 || h >= p.bEn
 		if full {
@@ -165,7 +187,14 @@ func runSequence(r *Rng, out *Out, p seqPlan, baseline bool) {
 						w.submitAdm(out, w.mkModifyRates(p.brBetween, p.rrBetween, false))
 					}
 				case h == p.submitB:
-					w.submitAdm(out, w.mkUpdatePmtp(p.bGov, p.bEl, p.bSt, p.bEn))
+					if !w.submitAdm(out, w.mkUpdatePmtp(p.bGov, p.bEl, p.bSt, p.bEn)) {
+						last = p.submitB + 20 // refused: no second window to run
+						out.Hist["seq.next-policy-refused"]++
+					}
+				case h == mint1:
+					w.submitAdm(out, w.mkStaking(uint64(1+r.Intn(1000)), r.Rate01(), big.NewInt(1)))
+				case h == mint2:
+					w.submitAdm(out, w.mkStaking(uint64(1+r.Intn(1000)), big.NewInt(0), big.NewInt(0)))
 				}
 			})
 		} else {
@@ -178,4 +207,17 @@ func runSequence(r *Rng, out *Out, p seqPlan, baseline bool) {
 	out.Hist["seq.completed"]++
 }
 
-var _ = big.NewInt
+// mkStaking: UpdateStakingRewardParams with default mint params, the given blocks per year and minter
+// (inflation = annual provisions = 0 means: keep the stored minter).
+func (w *World) mkStaking(bpy uint64, infl, ap *big.Int) *AdminMsg {
+	p := minttypes.DefaultParams()
+	p.MintDenom = "rowan"
+	p.BlocksPerYear = bpy
+	m := &clptypes.MsgUpdateStakingRewardParams{Signer: w.admin.String(), Params: p, Minter: minttypes.Minter{Inflation: decOf(infl), AnnualProvisions: decOf(ap)}}
+	return &AdminMsg{kind: "UpdateStakingRewardParams", desc: fmt.Sprintf("adm %s %s %s %s %d %s %s", d2s(p.InflationRateChange), d2s(p.InflationMax), d2s(p.InflationMin), d2s(p.GoalBonded), bpy, infl, ap),
+		shape: "seq", vb: m.ValidateBasic,
+		run: func(ctx sdk.Context) error {
+			_, err := w.csrv.UpdateStakingRewardParams(sdk.WrapSDKContext(ctx), m)
+			return err
+		}}
+}
